@@ -359,6 +359,16 @@ func ExtractTable(fn *ssa.Function, resIdx int) (*Table, error) {
 			}
 			return
 		}
+		// defer-spilled results: `*res = x; rundefers; t = *res; return t`
+		if o := Origin(v); o != v {
+			if _, isPhi := o.(*ssa.Phi); isPhi {
+				classify(o, b, cond, r)
+				return
+			}
+			if _, isLoad := o.(*ssa.UnOp); !isLoad {
+				v = o
+			}
+		}
 		row := Row{Cond: cond, Ret: r, Via: b}
 		if !errLike {
 			row.Outcome = "value:" + Sig(v)
